@@ -1119,6 +1119,19 @@ class PendingClassDef(_PendingCompoundStmt[ClassDef]):
     def get_result(self) -> list[expr]:
         return_list: list[expr] = []
 
+        # decorators run first (from top to bottom)
+        # and they are applied (from bottom to top) after the class is loaded
+        decorator_names: list[Name] = []
+        for dec_expr in self.node.decorator_list:
+            decorator_name = Name(id=ol_name(OL_CLASS_DECORATOR))
+            return_list.append(
+                NamedExpr(
+                    target=decorator_name,
+                    value=expr_transf(self.nsp, dec_expr),
+                )
+            )
+            decorator_names.append(decorator_name)
+
         class_bases = [expr_transf(self.nsp, _expr) for _expr in self.node.bases]
 
         metaclass_expr = None
@@ -1232,6 +1245,17 @@ class PendingClassDef(_PendingCompoundStmt[ClassDef]):
             ],
         )
         return_list.append(load_class)
+
+        if decorator_names:
+            decorated_class = self.nsp.get_load_name(self.node.name)
+            for decorator_name in reversed(decorator_names):
+                decorated_class = Call(
+                    func=decorator_name,
+                    args=[decorated_class],
+                    keywords=[],
+                )
+            return_list.append(self.nsp.get_assign(self.node.name, decorated_class))
+
         return return_list
 
 
